@@ -1,6 +1,7 @@
 /-
   C13 — property theorems (model and specification: ShelxModel/C13.lean; thresholds, bond condition and radii:
-  ShelxModel/Extracted/SdmC13.lean, regenerated from sdm.py / elements.py on every run).
+  ShelxModel/Extracted/SdmC13.lean, regenerated on every run by running the code of the tree under test on
+  symbolic numbers: extract/probe_c13.py).
 
   PARTIAL, and explicit about it: the theorems are about EXACT arithmetic. They are stated over an arbitrary
   linearly ordered field `K` (ℚ, ℝ …) and take `floor` and `sqrt` as functions with their defining properties as
@@ -208,12 +209,17 @@ theorem recipBound_orthogonal {sq : K → K} (hs : IsSqrt sq) {a b c : K} (ha : 
 
 /-! ### the bond criterion -/
 
-/-- the PART/hydrogen condition as the source spells it (regenerated) is the rule of the statement:
-    never between different non-zero PARTs, hydrogens only within the same PART -/
+/-- the PART/hydrogen condition as the code decides it (regenerated: the decision tree of the tests the code makes
+    on the PART numbers, per combination of hydrogen flags) is the rule of the statement:
+    never between different non-zero PARTs, hydrogens only within the same PART.
+    The proof does not depend on the shape of the tree: per combination of hydrogen flags either `simp` + `omega`
+    on the whole expression, or every `if` split and the leaves closed by `simp_all` / `omega`. -/
 theorem bondAllowed_iff_rule (h1 h2 : Bool) (p1 p2 : Int) :
     Extracted.bondAllowed h1 h2 p1 p2 = true ↔ ruleAllowed h1 h2 p1 p2 := by
   unfold Extracted.bondAllowed ruleAllowed
-  cases h1 <;> cases h2 <;> simp <;> omega
+  cases h1 <;> cases h2 <;> first
+    | (simp <;> omega)
+    | (simp only [] <;> (try split_ifs) <;> (try simp_all) <;> (try omega))
 
 /-- **covalent_iff_rule**: `covalent` of an `SDMItem` is the library's bonding rule applied to the reported
     distance. Hypothesis `hd`: the distance is not below the limit the code uses where no bond is allowed
